@@ -172,7 +172,7 @@ def ref_schema_from_xml(xml_text, impl):
 
     for e in sect.get('enums-root', []):
         tid = e.get('type')
-        if tid not in DOC_TYPES:
+        if tid not in DOC_TYPES or DOC_TYPES[tid][0] not in ('int', 'char', 'str'):
             raise RefError('enum type ' + repr(tid))
         enums[e.get('id')] = {'type': tid, 'members': [(v.get('name'), const(tid, v.text or '')) for v in e]}
     for f in sect.get('fielddef-root', []):
@@ -641,7 +641,7 @@ def gen_malformed_spec(rng, tier, kind):
     elif kind == 'empty-enum':
         spec['enums'].append({'name': 'Empty', 'type': rng.choice(CHAR_IDS + INT_IDS), 'values': []})
     elif kind == 'noncanonical-default':
-        m['fields'].append(blank_field('ncd', type=rng.choice(INT_IDS), default=rng.choice(['05', '00', '-0', '', '--1', 'x', '1e3', '007'])))
+        m['fields'].append(blank_field('ncd', type=rng.choice(INT_IDS), default=rng.choice(['05', '00', '-0', '', 'x', '007', '0x', '1_'])))
     elif kind == 'bad-default-name':
         m['fields'].append(blank_field('bdn', type='boolean', default=rng.choice(['True', 'False', 'true', '1'])))
     elif kind == 'fixed-no-length':
